@@ -44,27 +44,29 @@
 (* run only shows that the parser neither panics nor hangs.                     *)
 EXTENDS Integers, Sequences, FiniteSets
 
-Kinds == {"sm2", "ecdh", "ecdsa", "rsa", "sm9sm", "sm9smp", "sm9su", "sm9em", "sm9emp", "sm9eu"}
+Kinds == {"sm2", "ecdh", "ecdsa", "ecdsa384", "ecdsa521", "rsa", "sm9sm", "sm9smp", "sm9su", "sm9em", "sm9emp", "sm9eu"}
+(* ecdsa = P-256, ecdsa384 / ecdsa521 = P-384 / P-521 (48- and 66-byte scalars);                                    *)
 (* sm9sm/sm9em: sign/encrypt master private key; sm9smp/sm9emp: master public key; sm9su/sm9eu: user private key *)
+EcdsaKinds   == {"ecdsa", "ecdsa384", "ecdsa521"}
 Sm9Kinds     == {"sm9sm", "sm9smp", "sm9su", "sm9em", "sm9emp", "sm9eu"}
 Sm9Master    == {"sm9sm", "sm9em"}
 Sm9Points    == {"sm9smp", "sm9su", "sm9emp", "sm9eu"}
-Pkcs8Kinds   == {"sm2", "ecdh", "ecdsa", "rsa", "sm9sm", "sm9su", "sm9em", "sm9eu"}
+Pkcs8Kinds   == {"sm2", "ecdh", "rsa", "sm9sm", "sm9su", "sm9em", "sm9eu"} \cup EcdsaKinds
 
 (* scalar classes.  For SM9 public and user keys the class is that of the master scalar they derive from. *)
 ScalarCls == {"one", "nMinus2", "hiByteZero", "loByteZero", "hiBitSet", "random1", "random2"}
 ValidCls(kind) == IF kind = "rsa" THEN {"rsa2048", "rsa1024"}
-                  ELSE ScalarCls \cup (IF kind = "ecdsa" THEN {"nMinus1"} ELSE {})      \* ECDSA: [1, n-1]; SM2/ECDH/SM9: [1, n-2]
+                  ELSE ScalarCls \cup (IF kind \in EcdsaKinds THEN {"nMinus1"} ELSE {})      \* ECDSA: [1, n-1]; SM2/ECDH/SM9: [1, n-2]
 BadCls(kind) == CASE kind \in {"sm2", "ecdh"} -> {"zero", "nMinus1", "n", "nPlus1", "max", "wide"}
-                  [] kind = "ecdsa"           -> {"zero", "n", "nPlus1", "max"}
+                  [] kind \in EcdsaKinds      -> {"zero", "n", "nPlus1", "max"}
                   [] kind \in Sm9Master       -> {"zero", "nMinus1", "n", "nPlus1", "max", "negative"}
                   [] OTHER                    -> {}
 
 Fmts == {"PKCS8", "PKCS8enc", "SEC1", "PKIX", "PEMenc", "SM2Enveloped", "CFCA", "RAW", "SM9raw", "SM9rawc", "SM9asn1", "SM9asn1c"}
 Applicable(kind, fmt) ==
   CASE fmt \in {"PKCS8", "PKCS8enc", "PEMenc"} -> kind \in Pkcs8Kinds
-    [] fmt = "SEC1"                            -> kind \in {"sm2", "ecdsa"}
-    [] fmt = "PKIX"                            -> kind \in {"sm2", "ecdh", "ecdsa", "rsa"}       \* the public half
+    [] fmt = "SEC1"                            -> kind \in {"sm2"} \cup EcdsaKinds
+    [] fmt = "PKIX"                            -> kind \in {"sm2", "ecdh", "rsa"} \cup EcdsaKinds   \* the public half
     [] fmt \in {"SM2Enveloped", "CFCA"}        -> kind = "sm2"
     [] fmt = "RAW"                             -> kind \in {"sm2", "ecdh"}
     [] fmt = "SM9asn1"                         -> kind \in Sm9Kinds
@@ -96,7 +98,7 @@ TakesUnwrapKey(c) == c.fmt = "SM2Enveloped"
 (* containers around which an out-of-range scalar can be placed *)
 InjectApplies(kind, c, bad) ==
   /\ bad \in BadCls(kind)
-  /\ CASE c.fmt \in {"PKCS8", "SEC1"} -> /\ kind \in {"sm2", "ecdh", "ecdsa"} \/ (kind \in Sm9Master /\ c.fmt = "PKCS8" /\ bad \in {"nMinus1", "n", "nPlus1", "max"})
+  /\ CASE c.fmt \in {"PKCS8", "SEC1"} -> /\ kind \in {"sm2", "ecdh"} \cup EcdsaKinds \/ (kind \in Sm9Master /\ c.fmt = "PKCS8" /\ bad \in {"nMinus1", "n", "nPlus1", "max"})
                                          /\ bad \notin {"wide", "negative"}                         \* edited in place: same length
        [] c.fmt = "RAW"               -> bad # "negative"
        [] c.fmt = "SM9asn1"           -> kind \in Sm9Master /\ bad # "wide"
